@@ -1,8 +1,8 @@
-"""Apply a behaviour-preserving refactoring to /repo, run checks, undo it, file the outcome under benign/<id>/.
-(development tool, not a registered check)   usage: python -m harness.benigntool <area> <k> <id> <check> [check ...]"""
+"""Apply a behaviour-preserving refactoring to a scratch worktree of /repo HEAD, run checks against it, file the outcome
+under benign/<id>/ (development tool, not a registered check).
+usage: python -m harness.benigntool <area> <k> <id> <check> [check ...]"""
 import json
 import os
-import re
 import shutil
 import subprocess
 import sys
@@ -19,27 +19,35 @@ def main():
     area, k, bid = sys.argv[1:4]
     checks = sys.argv[4:]
     diff = os.path.join(VERIF, "benign", "_incoming", area, f"benign_{area}_{k}.diff")
-    assert sh(f"git -C {REPO} status --porcelain").stdout.strip() == "", "repo not clean"
-    r = sh(f"git -C {REPO} apply {diff}")
-    if r.returncode:
-        print("does not apply:", r.stdout)
-        return 1
+    wt, scratch = f"/tmp/cb_{bid}", f"/tmp/cb_out_{bid}"
+    sh(f"git -C {REPO} worktree remove --force {wt}")
+    assert sh(f"git -C {REPO} worktree add -q --detach {wt} HEAD").returncode == 0
     res = {}
     try:
-        t = sh(f"cd {REPO} && /venv/bin/python -m pytest -q -p no:cacheprovider --timeout=900 --continue-on-collection-errors 2>&1 | tail -1")
+        r = sh(f"git -C {wt} apply {diff}")
+        if r.returncode:
+            print("does not apply:", r.stdout)
+            return 1
+        t = sh(f"cd {wt} && /venv/bin/python -m pytest -q -p no:cacheprovider --timeout=900 --continue-on-collection-errors 2>&1 | tail -1")
+        shutil.rmtree(scratch, ignore_errors=True)
+        os.makedirs(scratch + "/build")
+        os.makedirs(scratch + "/evidence")
         for c in checks:
-            p = sh(f"cd {VERIF} && ./check {c} --tier quick")
+            p = sh(f"cd {VERIF} && VERIF_REPO={wt} VERIF_BUILD={scratch}/build VERIF_EVIDENCE={scratch}/evidence ./check {c} --tier quick")
             res[c] = {"exit": p.returncode,
-                      "violation_lines": [ln for ln in p.stdout.splitlines() if ln.startswith("VIOLATION")][:5],
+                      "violation_lines": [ln.replace(scratch, "<scratch>") for ln in p.stdout.splitlines() if ln.startswith("VIOLATION")][:5],
                       "drift": sum(1 for ln in p.stdout.splitlines() if ln.startswith("SPEC-DRIFT")),
                       "machinery": [ln for ln in p.stdout.splitlines() if ln.startswith("MACHINERY")][:2]}
             print(c, res[c])
     finally:
-        sh(f"git -C {REPO} checkout -- .")
+        sh(f"git -C {REPO} worktree remove --force {wt}")
+        shutil.rmtree(wt, ignore_errors=True)
+        shutil.rmtree(scratch, ignore_errors=True)
     d = os.path.join(VERIF, "benign", bid)
     os.makedirs(d, exist_ok=True)
     shutil.copy(diff, os.path.join(d, "patch.diff"))
     json.dump({"id": bid, "area": area, "pytest": t.stdout.strip(), "checks_run": res,
+               "base_commit": sh(f"git -C {REPO} rev-parse --short HEAD").stdout.strip(),
                "false_alarms": [c for c, v in res.items() if v["exit"] == 1],
                "machinery_failures": [c for c, v in res.items() if v["exit"] not in (0, 1)]},
               open(os.path.join(d, "meta.json"), "w"), indent=1)
